@@ -1,5 +1,5 @@
 (* Properties_C08.v — C08: what the encoders produce, the library's own receivers accept unchanged. *)
-From Via Require Import M_Char M_Encode M_Parse P_C08 P_C02 P_C08b P_C08c.
+From Via Require Import M_Char M_Encode M_Parse M_Receive P_C08 P_C02 P_C08b P_C08c P_C08d P_C08e.
 Local Open Scope N_scope.
 
 (* every header name the library defines (all ids of header_field::id, regenerated from the source)
@@ -42,6 +42,50 @@ Theorem C08_content_length_roundtrip : forall L n rest, n <= LONG_MAX -> 1 <= ma
             /\ fl_name f = hf_LC_CONTENT_LENGTH /\ from_dec_string (fl_value f) = Some n.
 Proof. exact content_length_roundtrip. Qed.
 
+(* the status line written by tx_response is parsed back: version, status, reason phrase (any bytes but line ends,
+   not starting with a blank; may be empty) *)
+Theorem C08_status_line_roundtrip : forall L st reason ma mi hs rest,
+  isdigit ma = true -> isdigit mi = true -> st <= max_status L -> st <= LONG_MAX ->
+  forallb reason_char reason = true -> (match reason with c :: _ => isblank c = false | [] => True end) ->
+  nlen reason <= max_reason L ->
+  sl_parse L sl_init (response_line_string (mk_tx_response st reason ma mi hs) ++ rest) =
+  (mk_sl st reason ma mi S_VALID 1 true true false, rest, Done).
+Proof. exact status_line_roundtrip. Qed.
+
+(* a block of header lines written by to_header and closed by the empty line is parsed back: the fields of the lines in
+   order, names case-folded, repeated names merged as message_headers::add merges them - for any number of lines
+   within the limits (line_ok: token name, value without line ends not starting with a blank, line length;
+   within: total length and number of fields) *)
+Theorem C08_header_block_roundtrip : forall L hs n h rest, 1 <= max_ws L -> Forall (line_ok L) hs ->
+  hd_field h = fl_init -> hd_cr h = false -> hd_fail h = false ->
+  within L (hd_fields h) (hd_length h) hs -> (length hs < n)%nat ->
+  exists h', hd_loop n L h (lines_bytes hs ++ [13; 10] ++ rest) = (h', rest, Done) /\
+             hd_fields h' = fold_left add_line hs (hd_fields h) /\ hd_valid h' = true /\ hd_fail h' = false.
+Proof. exact header_block_roundtrip. Qed.
+
+(* the whole head of a request: request line, header lines, empty line *)
+Theorem C08_request_head_roundtrip : forall L m u ma mi hs rest,
+  forallb isupper m = true -> m <> [] -> nlen m <= max_method L ->
+  forallb uri_char u = true -> u <> [] -> nlen u <= max_uri L ->
+  isdigit ma = true -> isdigit mi = true ->
+  1 <= max_ws L -> Forall (line_ok L) hs -> within L [] 0 hs ->
+  exists h', rq_parse L rq_init (request_line_string (mk_tx_request m u ma mi (lines_bytes hs)) ++ lines_bytes hs ++ [13; 10] ++ rest)
+             = (mk_rq (mk_rl m u ma mi R_VALID 1 true false) h' true, rest, Done) /\
+             hd_fields h' = fold_left add_line hs [] /\ hd_valid h' = true.
+Proof. exact request_head_roundtrip. Qed.
+
+(* non-vacuity: two lines with the same name and a third one satisfy the premises; the repeated name is merged *)
+Example C08_example_header_block :
+  let L := mk_limits 8190 8 100 65534 1024 8 65534 65534 false in
+  let hs := [([72;111;115;116], [104]); ([88;45;65], [49]); ([120;45;97], [50])] in
+  Forall (line_ok L) hs /\ within L [] 0 hs /\
+  fold_left add_line hs [] = [([104;111;115;116], [104]); ([120;45;97], [49;44;50])].
+Proof.
+  split; [|split; [|vm_compute; reflexivity]].
+  - repeat constructor; cbn; try discriminate; try lia.
+  - cbn [within]. vm_compute. repeat split; intros; discriminate.
+Qed.
+
 Example C08_example_request_line :
   rl_parse (mk_limits 8190 8 100 65534 1024 8 65534 65534 false) rl_init
     (request_line_string (mk_tx_request [80;85;84] [47;97;63;98;61;49] 49 49 []) ++ [72]) =
@@ -54,3 +98,6 @@ Print Assumptions C08_request_line_roundtrip.
 Print Assumptions C08_decimal_roundtrip.
 Print Assumptions C08_hexadecimal_roundtrip.
 Print Assumptions C08_content_length_roundtrip.
+Print Assumptions C08_status_line_roundtrip.
+Print Assumptions C08_header_block_roundtrip.
+Print Assumptions C08_request_head_roundtrip.
